@@ -255,6 +255,14 @@ theorem RT_step_self (hpl : 0 < pl) {s : State} (hg : Good crc pl blob s) (tid k
     rw [ht] at ht'; cases ht'
     exact hr
 
+theorem RTAll_init (mi : MetaInfo) : RTAll pl blob (init mi) := by
+  intro a u hu
+  have : (init mi).threads = [] := by
+    unfold init openTorrent
+    split <;> (unfold openTorrentCore; simp only [Bool.false_eq_true, if_false]; split <;> rfl)
+  rw [this] at hu; simp at hu
+
+
 theorem RTAll_step (hpl : 0 < pl) {s : State} (hg : Good crc pl blob s) (a : Action)
     (hr : RTAll pl blob s) : RTAll pl blob (step crc s a) := by
   cases a with
@@ -288,13 +296,11 @@ theorem RTAll_step (hpl : 0 < pl) {s : State} (hg : Good crc pl blob s) (a : Act
         · simp only; split <;> rfl
       · rfl
     rw [hthreads] at hu
-    exact (hr b u hu).mono (fun i h => complete_mono hg .reopen i h)
-
-theorem RTAll_init (mi : MetaInfo) : RTAll pl blob (init mi) := by
-  intro a u hu
-  have : (init mi).threads = [] := by
-    unfold init openTorrent
-    split <;> (unfold openTorrentCore; simp only [Bool.false_eq_true, if_false]; split <;> rfl)
-  rw [this] at hu; simp at hu
+    exact (hr b u hu).mono (fun i h => complete_mono hg .reopen (by intro h'; cases h') i h)
+  | recreate =>
+    simp only [step]
+    split
+    · exact RTAll_init _
+    · exact hr
 
 end KrakenModel.Proof.C03
